@@ -36,11 +36,13 @@ Record skeleton := mkSk {
   sk_taskloop_has_begin : bool;
   sk_taskloop_has_cancel : bool;
   sk_taskloop_has_end : bool;
-  sk_taskbegin_send_bare : bool;       (* r.taskBeginCh <- is a bare send (no stop arm) *)
-  sk_taskend_send_bare : bool;
-  sk_taskcancel_send_bare : bool;
-  sk_response_send_bare : bool;        (* callResponseCh <- rpc is a bare send *)
-  sk_notify_seqno : option Z           (* the key all notification tasks are filed under, if constant *)
+  sk_taskbegin_has_stop : bool;        (* the send on r.taskBeginCh sits in a select with <-r.stopCh *)
+  sk_taskend_has_stop : bool;
+  sk_taskcancel_has_stop : bool;
+  sk_response_send_nonblocking : bool; (* the send on the call's response channel has a default arm *)
+  sk_notify_key_unique : bool;         (* every notification is filed under its own task key *)
+  (* transport.go *)
+  sk_stop_err_in_once : bool           (* stopErr is assigned inside the close once, before close(stopCh), and nowhere else *)
 }.
 
 Definition selects_of (fn : string) : list (list arm) :=
@@ -101,11 +103,23 @@ Definition skeleton_now : skeleton :=
     (in_arms (Arm Recv "r.ctx.Done()") rw && in_arms (Arm Recv "r.ctx.Done()") rwc)
     (in_arms (Arm Recv "r.stopCh") tl) (in_arms (Arm Recv "r.taskBeginCh") tl)
     (in_arms (Arm Recv "r.taskCancelCh") tl) (in_arms (Arm Recv "r.taskEndCh") tl)
-    (has_bare_send "receiveHandler.handleReceiveDispatch" "r.taskBeginCh")
-    (has_bare_send "receiveHandler.handleReceiveDispatch$1" "r.taskEndCh")
-    (has_bare_send "receiveHandler.receiveCancel" "r.taskCancelCh")
-    (has_bare_send "receiveHandler.receiveResponse" "callResponseCh")
-    notify_seqno_const.
+    (let a := nth_select "receiveHandler.handleReceiveDispatch" 0 in
+     in_arms (Arm Send "r.taskBeginCh") a && in_arms (Arm Recv "r.stopCh") a
+     && negb (has_bare_send "receiveHandler.handleReceiveDispatch" "r.taskBeginCh"))
+    (let a := nth_select "receiveHandler.handleReceiveDispatch$1" 0 in
+     in_arms (Arm Send "r.taskEndCh") a && in_arms (Arm Recv "r.stopCh") a
+     && negb (has_bare_send "receiveHandler.handleReceiveDispatch$1" "r.taskEndCh"))
+    (let a := nth_select "receiveHandler.receiveCancel" 0 in
+     in_arms (Arm Send "r.taskCancelCh") a && in_arms (Arm Recv "r.stopCh") a
+     && negb (has_bare_send "receiveHandler.receiveCancel" "r.taskCancelCh"))
+    (let a := nth_select "receiveHandler.receiveResponse" 0 in
+     in_arms (Arm Send "callResponseCh") a && in_arms ArmDefault a
+     && negb (has_bare_send "receiveHandler.receiveResponse" "callResponseCh"))
+    (String.eqb task_key_expr "taskKey" && notify_key_counter)
+    (match close_once_sequence with
+     | s1 :: s2 :: _ => String.eqb s1 "stopErr=err" && String.eqb s2 "close:t.stopCh"
+     | _ => false
+     end && negb loop_assigns_stop_err).
 
 (* the mechanism the theorems were proved for (the unchanged tree, with the repairs recorded in known_findings.json) *)
 Definition expected_skeleton : skeleton :=
@@ -115,4 +129,4 @@ Definition expected_skeleton : skeleton :=
        true true
        true true true true
        true true true true
-       (Some (-1)%Z).
+       true true.
